@@ -381,7 +381,7 @@ def convert_resizenn_ac_to_depthwise_conv(op, upscale_factor):
         weight_quant.quant_min = -(1 << (ofm_dtype.bits - 1))
         weight_quant.quant_max = (1 << (ofm_dtype.bits - 1)) - 1
 
-    weight_shape = [upscale_factor, upscale_factor, output_depth, output_depth]  # HWIO
+    weight_shape = [upscale_factor, upscale_factor, 1, output_depth]  # HWIO, one input channel per output channel
 
     # the single non-zero coefficient used to select the desired value needs to be placed in the 'centre value', which
     # is calculated by finding the 'centre position' ('*' in the diagram below) and then choosing the 'value' that is
@@ -391,9 +391,8 @@ def convert_resizenn_ac_to_depthwise_conv(op, upscale_factor):
     # 1---*---+
     # | C | D |
     # 2---+---+
-    weight_values = [0] * (upscale_factor * upscale_factor)
-    centre_coeff = (upscale_factor // 2) * upscale_factor + (upscale_factor // 2)
-    weight_values[centre_coeff] = 1
+    weight_values = np.zeros(weight_shape, dtype=np.int64)
+    weight_values[upscale_factor // 2, upscale_factor // 2, 0, :] = 1
 
     # add weight tensor, this will discard the size tensor of the resize op
     op.set_input_tensor(
@@ -401,7 +400,7 @@ def convert_resizenn_ac_to_depthwise_conv(op, upscale_factor):
             "weights",
             weight_shape,
             ofm_dtype,
-            np.array(weight_values).reshape(weight_shape),
+            weight_values,
             quantization=weight_quant,
         ),
         1,  # inputs tensor weight index
